@@ -219,6 +219,18 @@ void gcm_case(Tape &t, Ctx &c) {
             c.count("gcm-neg-sweeps"); c.count("gcm-neg-sweep-opens", n);
             negs = "sweep";
         }
+        if (t.chance(1, 16)) {
+            // a ciphertext with no tag at all (ctLen == ptLen) must be refused, not "verified" over zero bytes
+            XBuf in(L.n, doff); if (L.n) memcpy(in.p, m.ct.data(), L.n);
+            XBuf o(L.n, 0, CANARY);
+            XBuf nonce(12, 0); memcpy(nonce.p, m.nonce.data(), 12);
+            XBuf aad(alen, 0); if (alen) memcpy(aad.p, m.aad.data(), alen);
+            psAesReadyGCM(g.ctx.get(), nonce.p, aad.p, (psSize_t) alen);
+            int32_t r = psAesDecryptGCM(g.ctx.get(), in.p, (uint32_t) L.n, o.p, (uint32_t) L.n);
+            VF_CHECK(r < 0, "gcm-forgery-accepted", "psAesDecryptGCM accepted ctLen == ptLen == %zu (no tag)", L.n);
+            g.init(t);     // the refused call may or may not have consumed keystream; start clean
+            c.count("gcm-neg:no-tag");
+        }
         c.count(fmt("gcm:aes-%zu", kl * 8)); c.count(tl == 16 ? "gcm-tag:16" : tl >= 8 ? "gcm-tag:8-15" : "gcm-tag:1-7");
         c.count(alen == 0 ? "gcm-aad:0" : alen <= 64 ? "gcm-aad:1-64" : alen <= 128 ? "gcm-aad:65-128" : "gcm-aad:>128");
         c.count(L.cls == 0 ? "gcm-len:0..65" : L.cls == 1 ? "gcm-len:boundary" : "gcm-len:large");
